@@ -22,7 +22,7 @@ asynq.tools.utime = lambda: CLOCK[0]      # the logical clock of Cache.tla (Tick
 
 
 class VErr(Exception):
-    __bool__ = lambda self: False       # unusual but legal: a falsy exception object
+    __bool__ = lambda self: sum(map(ord, str(self.args))) % 2 == 0       # unusual but legal: about half of the exception objects are falsy
 
     def __init__(self, v):
         Exception.__init__(self, "body raised %r" % (v,))
